@@ -81,6 +81,34 @@ Fixpoint lucky_after (f : lucky) (ops : list lop) : option lucky :=
   | LDo s :: r => match lucky_do f s with None => None | Some (f', _) => lucky_after f' r end
   end.
 
+(* ---- ties ----
+   slices.SortFunc(x, cmp) is pdqsortCmpFunc(x, 0, n, ...), whose first step is
+   "if length <= 12 { insertionSortCmpFunc(data, a, b, cmp); return }":
+     for i := a + 1; i < b; i++ { for j := i; j > a && cmp(data[j], data[j-1]) < 0; j-- { swap j, j-1 } }
+   i.e. element i sinks to the left while it is STRICTLY smaller than its left
+   neighbour.  go_sink works on the already sorted prefix in reverse (head = left
+   neighbour).  For windows of at most 12 samples this is what the filter runs;
+   it is stable, so among samples of equal round-trip delay the OLDER ones (earlier
+   in the window) come first and are the ones kept.  Longer windows go through the
+   pattern-defeating quicksort proper, modelled by its contract only. *)
+Fixpoint go_sink {A} (key : A -> Z) (x : A) (revp : list A) : list A :=
+  match revp with
+  | [] => [x]
+  | y :: r => if key x <? key y then y :: go_sink key x r else x :: revp
+  end.
+Definition go_isort {A} (key : A -> Z) (l : list A) : list A :=
+  rev (fold_left (fun acc x => go_sink key x acc) l []).
+Definition max_insertion : nat := 12.
+
+(* the windows on which the model is exact: insertion-sorted ones, and those without ties *)
+Fixpoint distinctb (l : list Z) : bool :=
+  match l with
+  | [] => true
+  | x :: r => negb (existsb (Z.eqb x) r) && distinctb r
+  end.
+Definition lucky_exact_window (w : list lmeas) : bool :=
+  Nat.leb (length w) max_insertion || distinctb (map l_rtd w).
+
 (* ---- relational form: Go's slices.SortFunc is not stable, so with equal
    round-trip delays any sorted permutation may be the slice after the call ---- *)
 Definition rtd_sorted_perm (w s1 : list lmeas) : Prop := Permutation w s1 /\ sorted_by l_rtd s1.
@@ -134,11 +162,12 @@ Definition med_exact (s : list Z) : Z :=
   if Nat.eqb (n mod 2) 0 then nth (n / 2 - 1) s 0 + Z.quot (nth (n / 2) s 0 - nth (n / 2 - 1) s 0) 2
   else nth (n / 2) s 0.
 
-Fixpoint distinctb (l : list Z) : bool :=
-  match l with
-  | [] => true
-  | x :: r => negb (existsb (Z.eqb x) r) && distinctb r
-  end.
+(* ties (outside the property's quantifier, which asks for distinct delays): what the filter does
+   on windows of at most 12 samples is to keep, among samples of equal delay, the older ones: sort
+   by delay keeping the window order among equals (Base.Sorting.isort is that stable sort), take
+   the first k *)
+Definition lowest_stable (k : nat) (w : list lmeas) : list lmeas :=
+  if Nat.ltb k (length w) then firstn k (isort l_rtd w) else w.
 
 (* what the property says the output for the history hist (samples since the
    last reset, newest last) must be; None = the property does not constrain it *)
@@ -147,8 +176,10 @@ Definition lucky_spec (cap pick : nat) (hist : list sample) : option Z :=
   | O => match rev hist with s :: _ => Some (raw_offset s) | [] => None end
   | _ =>
     let w := map meas_of (lastn cap hist) in
-    if distinctb (map l_rtd w) && forallb (fun m => Z.abs (l_off m) <? 2^62) w && negb (Nat.eqb (length w) 0)
-    then Some (med_exact (zsort (map l_off (lowest (Nat.min pick cap) w))))
+    if forallb (fun m => Z.abs (l_off m) <? 2^62) w && negb (Nat.eqb (length w) 0)
+    then if distinctb (map l_rtd w) then Some (med_exact (zsort (map l_off (lowest (Nat.min pick cap) w))))
+         else if Nat.leb (length w) max_insertion then Some (med_exact (zsort (map l_off (lowest_stable (Nat.min pick cap) w))))
+         else None
     else None
   end.
 
